@@ -345,7 +345,7 @@ def inputs(ctx: Ctx) -> Iterator[Tuple[Parts, str]]:
     for p in NON_WF_SEEDS:
         yield list(p), "not-well-formed-values"
     # type-directed random trees, rendered by the real renderer
-    n = ctx.n(700, 40000)
+    n = ctx.n(700, 6000)
     for i in range(n):
         fv = i % 4 == 0
         wire = ",".join(gen_union(ctx, 2, True, fv))
@@ -359,7 +359,7 @@ def inputs(ctx: Ctx) -> Iterator[Tuple[Parts, str]]:
         for _ in range(2):
             yield mutate(ctx, parts), "near-miss-fv" if fv else "near-miss"
     for s in ENCODING_SEEDS:
-        for _ in range(ctx.n(2, 20)):
+        for _ in range(ctx.n(2, 10)):
             yield mutate(ctx, [s]), "near-miss-encodings"
 
 
@@ -385,7 +385,7 @@ def render_inputs(ctx: Ctx) -> Iterator[Tuple[str, str]]:
         yield f"u,1,c,1,t,h,{ord(k)},0,n", "enumerated"
         yield f"u,1,c,1,t,s,0,2,r,97,0,n,r,{ord(k)},0,n,n", "enumerated"
         yield f"u,1,c,1,t,s,0,2,r,{ord(k)},0,n,r,98,0,e,{ord(k)},0,n", "enumerated"
-    for i in range(ctx.n(1000, 30000)):
+    for i in range(ctx.n(1000, 8000)):
         yield ",".join(gen_union(ctx, 2, i % 2 == 0, i % 3 == 0)), "random-trees"
 
 
